@@ -294,7 +294,7 @@ func (c *vPipeCase) valid() bool {
 func vRunPipe(c *vPipeCase, observe func(tr *vTrace, k int, recs []*DataRecord) *vVerdict) (*vTrace, *vVerdict) {
 	vDrainRecords()
 	drain := vDrainRecords
-	if c.SlowPub {
+	if c.SlowPub && len(c.Blocks) <= 60 { // (a marker round trip per block: not for the streams cut into hundreds of blocks)
 		oldR, oldS := PubRecordsChan, PubSummariesChan
 		PubRecordsChan, PubSummariesChan = make(chan []*DataRecord, 1), make(chan []*DataRecord, 1)
 		var got []*DataRecord
